@@ -1,4 +1,5 @@
-(* C11: clauses after the column list (TABLESPACE, STORED AS, LOCATION, ENGINE, COMMENT, USING, IN), any number, subset and order. *)
+(* C11: clauses after the column list (TABLESPACE, STORED AS, LOCATION, ENGINE =, COMMENT =, USING, IN, ROW FORMAT SERDE / word,
+   word TERMINATED BY, COLLECTION ITEMS / MAP KEYS TERMINATED BY, COMMENT 'text', word word, INTO n BUCKETS), any number, subset and order. *)
 From Coq Require Import String Ascii List ZArith NArith PArith Bool Lia.
 From SDP Require Import Base PyStr LR Lexer Actions Parse RealTables Engine Seq SeqProofs KeywordProofs Entity EntityProofs Table TableProofs TableItemProofs.
 Import ListNotations.
@@ -8,6 +9,8 @@ Local Arguments int_of_string : simpl never.
 Local Arguments normalize_id : simpl never.
 Local Arguments nms : simpl never.
 Local Arguments upper : simpl never.
+Local Arguments lower : simpl never.
+Local Arguments check_spec : simpl never.
 
 Notation Frun := (frun Table.q Table.fstep).
 
@@ -17,9 +20,11 @@ Definition cpend_of (c : tclause) : cpend :=
   match c with
   | CTablespace _ _ => CPTs | CStored _ _ _ => CPStored | CLocation _ _ => CPLoc | CEngine _ _ => CPEng
   | CComment _ _ => CPCom | CUsing _ _ => CPUs | CIn _ _ => CPIn
+  | CRowSerde _ _ _ _ => CPRowSerde | CRowWord _ _ _ => CPRowWord | CTerm _ _ _ _ => CPTerm | CColl _ _ _ _ _ => CPColl
+  | CMapKeys _ _ _ _ _ => CPMap | CCommentStr _ _ => CPComStr | CGen _ _ => CPGen | CInto _ _ _ => CPInto
   end.
 Definition clause_ok_after (s : Table.q) (c : tclause) : bool :=
-  match s, c with CB CPTs, CIn _ _ => false | _, _ => true end.
+  match s with CB CPTs => negb (starts_plain c) | _ => true end.
 Definition is_cstate (s : Table.q) : Prop := s = END \/ exists p, s = CB p.
 
 Definition fos_clause (s : Table.q) (c : tclause) : list fout :=
@@ -31,12 +36,20 @@ Definition fos_clause (s : Table.q) (c : tclause) : list fout :=
   | CComment _ _ => [(cstate_pend s, "COMMENT", Upper); ([], "EQ", Keep); ([], "STRING_BASE", Keep)]
   | CUsing _ _ => [(cstate_pend s, "USING", Upper); ([], "ID", Keep)]
   | CIn _ _ => [(cstate_pend s, "IN", Upper); ([], "ID", Keep)]
+  | CRowSerde _ _ _ _ => [(cstate_pend s, "ROW", Upper); ([], "FORMAT", Upper); ([], "SERDE", Upper); (["row_format -> ROW FORMAT SERDE"], "STRING_BASE", Keep)]
+  | CRowWord _ _ _ => [(cstate_pend s, "ROW", Upper); ([], "FORMAT", Upper); (["row_format -> ROW FORMAT"], "ID", Keep)]
+  | CTerm _ _ _ _ => [(cstate_pend s, "ID", Keep); (["id -> ID"], "TERMINATED", Upper); ([], "BY", Upper); ([], "STRING_BASE", Keep)]
+  | CColl _ _ _ _ _ => [(cstate_pend s, "COLLECTION", Upper); ([], "ITEMS", Upper); ([], "TERMINATED", Upper); ([], "BY", Upper); ([], "STRING_BASE", Keep)]
+  | CMapKeys _ _ _ _ _ => [(cstate_pend s, "MAP", Upper); ([], "KEYS", Upper); ([], "TERMINATED", Upper); ([], "BY", Upper); ([], "STRING_BASE", Keep)]
+  | CCommentStr _ _ => [(cstate_pend s, "COMMENT", Upper); ([], "STRING_BASE", Keep)]
+  | CGen _ _ => [(cstate_pend s, "ID", Keep); (["id -> ID"], "ID", Keep)]
+  | CInto _ _ _ => [(cstate_pend s, "INTO", Upper); ([], "ID", Keep); ([], "ID", Keep)]
   end%string.
 
 Lemma frun_clause s c : is_cstate s -> clause_ok_after s c = true ->
   Frun s (clause_letters c) = Some (fos_clause s c, CB (cpend_of c)).
 Proof.
-  intros [->|[p ->]] H; destruct c; try destruct p; cbn [clause_ok_after] in H; try discriminate H; vm_compute; reflexivity.
+  intros [->|[p ->]] H; destruct c; try destruct p; cbn [clause_ok_after starts_plain negb] in H; try discriminate H; vm_compute; reflexivity.
 Qed.
 Lemma fos_clause_length s c : List.length (fos_clause s c) = List.length (clause_lexemes c).
 Proof. destruct c; reflexivity. Qed.
@@ -46,7 +59,8 @@ Ltac solve_action :=
         | match goal with
           | |- context [action ?n ?p ?a] =>
             let H := fresh "Hact" in
-            eassert (H : action n p a = Ok _) by (unfold action, action_more; simpl; reflexivity);
+            eassert (H : action n p a = Ok _)
+              by (unfold action, action_more; simpl; repeat match goal with X : String.eqb _ _ = false |- _ => rewrite X end; reflexivity);
             rewrite H; clear H
           end ].
 Ltac stepC :=
@@ -55,18 +69,21 @@ Ltac stepC :=
 
 (* one clause: the pending reductions leave the table entity d; afterwards they leave d with the clause's key set *)
 Lemma clause_step norm s c vs d :
-  is_cstate s -> clause_ok_after s c = true -> wf_clause c = true ->
+  is_cstate s -> clause_ok_after s c = true -> wf_clause_n norm c = true ->
   exec norm (map NReduce (cstate_pend s)) vs = Ok [PDict d] ->
   exists vs', Steps norm s vs (clause_letters c) (clause_lexemes c) (CB (cpend_of c)) vs' /\
               exec norm (map NReduce (cpending (cpend_of c))) vs' = Ok [PDict (clause_apply norm d c)].
 Proof.
-  intros Hs Hok Hwf Hp.
-  destruct c as [k n|k1 k2 v|k sl|k v|k sl|k v|k v]; cbn [wf_clause] in Hwf; split_wf Hwf; kw_uppers;
+  intros Hs Hok Hwf Hp. unfold wf_clause_n in Hwf.
+  destruct c as [k n|k1 k2 v|k sl|k v|k sl|k v|k v|k1 k2 k3 sl|k1 k2 w|w k1 k2 sl|k1 k2 k3 k4 sl|k1 k2 k3 k4 sl|k sl|w1 w2|k n w];
+    cbn [wf_clause] in Hwf; split_wf Hwf; kw_uppers;
+    repeat match goal with X : negb _ = true |- _ => apply negb_true_iff in X end;
     (eexists; split;
      [ unfold Steps; eexists; split; [apply frun_clause; assumption|]; split; [apply fos_clause_length|];
        cbn [fos_clause clause_lexemes ntrace snd W SB EQL apply_vtag map app]; rew_uppers;
-       rewrite (exec_app _ _ _ _ _ Hp); repeat rewrite exec_shift; rewrite exec_nil; reflexivity
-     | cbn [cpend_of cpending map]; repeat stepC; rewrite exec_nil; reflexivity ]).
+       rewrite (exec_app _ _ _ _ _ Hp); repeat stepC; rewrite exec_nil; reflexivity
+     | cbn [cpend_of cpending map]; repeat stepC; rewrite exec_nil;
+       repeat match goal with X : String.eqb _ _ = false |- _ => rewrite X end; reflexivity ]).
 Qed.
 
 (* all clauses *)
@@ -75,7 +92,7 @@ Fixpoint chain_clauses (s : Table.q) (l : list tclause) : bool :=
 Definition last_cstate (s : Table.q) (l : list tclause) : Table.q := match rev l with c :: _ => CB (cpend_of c) | [] => s end.
 
 Lemma clauses_steps norm : forall cl s vs d,
-  is_cstate s -> chain_clauses s cl = true -> forallb wf_clause cl = true ->
+  is_cstate s -> chain_clauses s cl = true -> forallb (wf_clause_n norm) cl = true ->
   exec norm (map NReduce (cstate_pend s)) vs = Ok [PDict d] ->
   exists s' vs', is_cstate s' /\
     Steps norm s vs (flat_map clause_letters cl) (flat_map clause_lexemes cl) s' vs' /\
@@ -90,18 +107,19 @@ Proof.
 Qed.
 
 Lemma chain_of_wf : forall cl, no_ts_then_in cl = true -> chain_clauses END cl = true /\
-  (forall p, (p <> CPTs \/ match cl with CIn _ _ :: _ => False | _ => True end) -> chain_clauses (CB p) cl = true).
+  (forall p, (p <> CPTs \/ match cl with c :: _ => starts_plain c = false | [] => True end) -> chain_clauses (CB p) cl = true).
 Proof.
   induction cl as [|c r IH]; intro H; [split; [reflexivity|intros; reflexivity]|].
   assert (Hr : no_ts_then_in r = true).
-  { destruct c; try exact H; destruct r as [|c2 r2]; try exact H; destruct c2; try exact H; cbn [no_ts_then_in] in H; discriminate. }
+  { destruct c; try exact H; destruct r as [|c2 r2]; try exact H; cbn [no_ts_then_in] in H; apply andb_true_iff in H; destruct H as [_ H]; exact H. }
   destruct (IH Hr) as [_ IH2].
   assert (Hnext : chain_clauses (CB (cpend_of c)) r = true).
-  { apply IH2. destruct c; try (left; discriminate). right. destruct r as [|c2 r2]; [exact I|]. destruct c2; try exact I.
-    cbn [no_ts_then_in] in H. discriminate. }
+  { apply IH2. destruct c; try (left; discriminate). right. destruct r as [|c2 r2]; [exact I|].
+    cbn [no_ts_then_in] in H. apply andb_true_iff in H. destruct H as [H _]. apply negb_true_iff in H. exact H. }
   split.
-  - cbn [chain_clauses]. rewrite Hnext. destruct c; reflexivity.
-  - intros p Hp. cbn [chain_clauses]. rewrite Hnext. destruct p; destruct c; try reflexivity. destruct Hp as [Hp|Hp]; [congruence|contradiction].
+  - cbn [chain_clauses]. rewrite Hnext. reflexivity.
+  - intros p Hp. cbn [chain_clauses]. rewrite Hnext. rewrite andb_true_r. destruct p; try reflexivity.
+    destruct Hp as [Hp|Hp]; [congruence|]. cbn [clause_ok_after]. rewrite Hp. reflexivity.
 Qed.
 
 (* ---------- the table part: from the start to the closing parenthesis ------------------------------------------------------------------- *)
@@ -196,7 +214,8 @@ Proof.
       with (fos := fos) (q' := s') (pfin := cstate_pend s').
     + rewrite (eval_app _ _ _ _ _ He). rewrite (eval_app _ _ _ _ _ Hp2). reflexivity.
     + apply Forall2_app; [exact Hm|]. clear - Hw0. induction cl as [|c r IH]; cbn [flat_map]; [constructor|].
-      cbn [forallb] in Hw0. apply andb_true_iff in Hw0. destruct Hw0 as [Hx Hy]. apply Forall2_app; [apply clause_match; exact Hx|apply IH; exact Hy].
+      cbn [forallb] in Hw0. apply andb_true_iff in Hw0. destruct Hw0 as [Hx Hy]. unfold wf_clause_n in Hx. apply andb_true_iff in Hx.
+      apply Forall2_app; [apply clause_match; exact (proj1 Hx)|apply IH; exact Hy].
     + apply Forall_app; split; [exact Hal|]. clear. induction cl as [|c r IH]; cbn [flat_map]; [constructor|]. apply Forall_app; split; [apply clause_alpha|exact IH].
     + exact Hf.
     + destruct Hs' as [->|[p ->]]; reflexivity.
@@ -218,23 +237,23 @@ Proof.
   destruct (String.eqb k a) eqn:E; cbn [assoc]; rewrite ?E; [rewrite String.eqb_refl; reflexivity|exact IH].
 Qed.
 
-Lemma clause_sets_its_key norm d c : dict_get (clause_apply norm d c) (clause_key c) = Some (clause_value norm c).
+Lemma clause_sets_its_key norm d c : dict_get (clause_apply norm d c) (clause_key norm c) = Some (clause_value norm c).
 Proof. apply dict_set_same. Qed.
-Lemma clause_keeps_other_keys norm d c k : k <> clause_key c -> dict_get (clause_apply norm d c) k = dict_get d k.
+Lemma clause_keeps_other_keys norm d c k : k <> clause_key norm c -> dict_get (clause_apply norm d c) k = dict_get d k.
 Proof. intro H. apply dict_set_other. exact H. Qed.
 
 (* whatever clauses follow the table, every key none of them owns (schema, table_name, columns, checks, primary_key, constraints ...)
    has the value it has in the clause-free table *)
-Theorem clauses_keep_the_body norm k : forall cl d, Forall (fun c => clause_key c <> k) cl ->
+Theorem clauses_keep_the_body norm k : forall cl d, Forall (fun c => clause_key norm c <> k) cl ->
   dict_get (fold_left (clause_apply norm) cl d) k = dict_get d k.
 Proof.
   induction cl as [|c r IH]; intros d H; cbn [fold_left]; [reflexivity|].
   inversion H as [|? ? Hc Hr]; subst. rewrite (IH _ Hr). apply clause_keeps_other_keys. intro E. apply Hc. symmetry. exact E.
 Qed.
 (* a clause's key carries that clause's value unless a LATER clause owns the same key, in any order and with anything in between *)
-Theorem clause_value_reported norm : forall before c after d, Forall (fun c' => clause_key c' <> clause_key c) after ->
-  dict_get (fold_left (clause_apply norm) (before ++ c :: after) d) (clause_key c) = Some (clause_value norm c).
+Theorem clause_value_reported norm : forall before c after d, Forall (fun c' => clause_key norm c' <> clause_key norm c) after ->
+  dict_get (fold_left (clause_apply norm) (before ++ c :: after) d) (clause_key norm c) = Some (clause_value norm c).
 Proof.
   intros before c after d H. rewrite fold_left_app. cbn [fold_left].
-  rewrite (clauses_keep_the_body norm (clause_key c) after _ H). apply clause_sets_its_key.
+  rewrite (clauses_keep_the_body norm (clause_key norm c) after _ H). apply clause_sets_its_key.
 Qed.
